@@ -9,6 +9,7 @@ import random
 
 import chy
 import tables
+import vlib
 from vlib import chars
 
 S16 = 'CNOcnlBr()[]=#1.'
@@ -146,6 +147,46 @@ def bracket_bodies(maxlen):
             yield '[' + ''.join(t) + ']'
 
 
+def generated_texts(num, seed):
+    """complete texts (with the molecule they denote) printed by `tlc -simulate` on the generative grammar"""
+    import json
+    import os
+    import shutil
+    import subprocess
+    d = os.path.join(vlib.scratch(), f'gen-{seed}')
+    os.makedirs(d, exist_ok=True)
+    for f in vlib._spec_files():
+        shutil.copy(f, d)
+    open(os.path.join(d, 'sim.cfg'), 'w').write('CONSTANTS MaxAtoms = 9\n MaxLen = 44\n MaxDepth = 3\nSPECIFICATION GSpec\nCONSTRAINT GenReport\nCHECK_DEADLOCK FALSE\n')
+    p = subprocess.run(['tlc', '-simulate', f'num={num}', '-depth', '36', '-workers', '1', '-seed', str(seed + 11), '-config', 'sim.cfg', '-metadir', os.path.join(d, 'meta'),
+                        '-noGenerateSpecTE', 'MC_SmilesGen.tla'], cwd=d, stdout=subprocess.PIPE, stderr=subprocess.STDOUT, text=True, timeout=1800)
+    out, seen = [], set()
+    for line in p.stdout.splitlines():
+        if line.startswith('<<"GEN", "') and line.endswith('">>'):
+            rec = json.loads(json.loads(line[len('<<"GEN", '):-2]))
+            t = ''.join(rec['text'])
+            if t not in seen:
+                seen.add(t)
+                out.append({'key': 'gen:' + t, 'text': t, 'atoms': rec['atoms'], 'bonds': rec['bonds']})
+    shutil.rmtree(d, True)
+    if len(out) < num // 4:
+        raise vlib.Machinery('the simulation of SmilesGen produced too few texts:\n' + p.stdout[-1500:])
+    return out
+
+
+def observe_generated(case):
+    from chython import smiles
+    kind, val = chy.outcome(smiles, case['text'])
+    rec = {'text': case['text'], 'atoms': case['atoms'], 'bonds': case['bonds'], 'out': kind if kind != 'ok' else 'ok', 'obs': {'atoms': [], 'bonds': []}}
+    if kind == 'ok':
+        m = val
+        order = list(m._atoms)
+        idx = {n: k + 1 for k, n in enumerate(order)}
+        rec['obs'] = {'atoms': [{'z': m._atoms[n].atomic_number, 'c': m._atoms[n]._charge, 'i': m._atoms[n]._isotope or 0} for n in order],
+                      'bonds': [[idx[a], idx[b], int(bd._order)] for a, b, bd in m.bonds()]}
+    return rec
+
+
 def run(ck):
     from vlib import pmap
     rnd = random.Random(ck.seed)
@@ -200,6 +241,14 @@ def run(ck):
         ck.count('rejected', sum(1 for r in recs if r['out'] == 'valueerror'))
         ck.count('stereo-atoms', sum(1 for r in recs for a in r['atoms'] if a['p'] != 2))
         ck.count('stereo-bonds', sum(len(r['ct']) for r in recs))
+    # spec -> code: the generative grammar.  Design level: every text the grammar can finish within the bound is read back to the
+    # generated molecule by the reference reader (exhaustive); then simulated behaviours are given to the library.
+    if not ck.replay:
+        ck.model('mc-smiles-gen', 'MC_SmilesGen', 'CONSTANTS MaxAtoms = 3\n MaxLen = %d\n MaxDepth = 2\nSPECIFICATION GSpec\nINVARIANT GenReadAgree\nCHECK_DEADLOCK FALSE\n' % (8 if ck.quick else 10))
+    gen = ck.select('generated', generated_texts(300 if ck.quick else 6000, ck.seed)) if not ck.replay else ck.select('generated', [])
+    if gen:
+        recs = pmap('checks.c03', 'observe_generated', gen)
+        ck.validate('generated', 'Trace_Gen', gen, recs)
     # line level: reactions, dots, CXSMILES radicals and fragment groups
     lines = gen_lines(rnd, 1500 if ck.quick else 20000)
     lines += ['C>>C', 'C>C', 'C>>>C', '>>C', 'C>>', '>C>', '>>', 'C.C>>C', 'CC[O] |^1:2|', 'CC[O] |^1:3|', 'C[CH2] |^1:1|', '[CH3].[CH3] |^1:0,1|',
